@@ -4849,6 +4849,38 @@ func (l *Lowerer) tryEvalConstantBool(expr parser.Expr) (bool, bool) {
 
 // tryEvalConstantUint tries to evaluate an expression as a constant unsigned integer.
 // Returns (value, true) on success, or (0, false) on failure.
+// unresolvedSizeIdent reports an identifier of an array-size expression that is neither a
+// module constant, an override nor a local constant.
+func (l *Lowerer) unresolvedSizeIdent(expr parser.Expr) (string, bool) {
+	switch e := expr.(type) {
+	case *parser.Ident:
+		if _, ok := l.abstractConstants[e.Name]; ok {
+			return "", false
+		}
+		if _, ok := l.moduleConstants[e.Name]; ok {
+			return "", false
+		}
+		if _, ok := l.moduleOverrides[e.Name]; ok {
+			return "", false
+		}
+		if _, ok := l.locals[e.Name]; ok {
+			return "", false
+		}
+		if l.localConsts[e.Name] {
+			return "", false
+		}
+		return e.Name, true
+	case *parser.BinaryExpr:
+		if n, bad := l.unresolvedSizeIdent(e.Left); bad {
+			return n, true
+		}
+		return l.unresolvedSizeIdent(e.Right)
+	case *parser.UnaryExpr:
+		return l.unresolvedSizeIdent(e.Operand)
+	}
+	return "", false
+}
+
 func (l *Lowerer) tryEvalConstantUint(expr parser.Expr) (uint64, bool) {
 	_, val, err := l.evalConstantIntExpr(expr)
 	if err != nil {
@@ -10311,6 +10343,10 @@ func (l *Lowerer) resolveType(typ parser.Type) (ir.TypeHandle, error) {
 				}
 				constSize := uint32(n)
 				size.Constant = &constSize
+			} else if name, bad := l.unresolvedSizeIdent(t.Size); bad {
+				// Not evaluable is fine for override-dependent sizes; an identifier that names
+				// nothing at all is the ordinary "unresolved identifier" error.
+				return 0, fmt.Errorf("array size: unresolved identifier '%s'", name)
 			}
 		}
 		// Compute element stride for SPIR-V ArrayStride decoration.
